@@ -468,6 +468,60 @@ func checkC19(P *Program, r *Result, tier string) {
 		}
 		r.add("DELEGATE", shortName(fn), "call", "Close resets the underlying buffer on every path and returns nil", P.pos(fn.Pos()), ok && retNil, "")
 	}
+	// SHADOW: "both handles are one object" also means that an operation of bytes.Buffer invoked through the transport
+	// is that operation: a method declared on bufferTransport under the name of a bytes.Buffer method must be a plain
+	// delegation (same arguments in order, results handed back unchanged, nothing else)
+	{
+		bufMethods := map[string]bool{}
+		if sp := P.pkg(rel); sp != nil {
+			if t := sp.Type("bufferTransport"); t != nil {
+				if st, ok := t.Type().Underlying().(*types.Struct); ok {
+					for i := 0; i < st.NumFields(); i++ {
+						if f := st.Field(i); f.Embedded() {
+							ms := types.NewMethodSet(types.NewPointer(f.Type()))
+							for k := 0; k < ms.Len(); k++ {
+								bufMethods[ms.At(k).Obj().Name()] = true
+							}
+						}
+					}
+				}
+			}
+		}
+		for _, m := range P.methodsNamed(rel, "bufferTransport", func(n string) bool { return bufMethods[n] }) {
+			if m.Synthetic != "" || fnPkgPath(m) != modPath+"/"+rel {
+				continue // promoted through embedding: it is the buffer's own method
+			}
+			ok, detail := false, "the method does more than call the buffer's method of the same name"
+			if len(m.Blocks) == 1 {
+				if ret, isRet := m.Blocks[0].Instrs[len(m.Blocks[0].Instrs)-1].(*ssa.Return); isRet {
+					var call *ssa.Call
+					ncalls := 0
+					for _, c := range callsIn(m) {
+						ncalls++
+						call, _ = c.(*ssa.Call)
+					}
+					if ncalls == 1 && call != nil && call.Common().StaticCallee() != nil && call.Common().StaticCallee().Name() == m.Name() && fnPkgPath(call.Common().StaticCallee()) == "bytes" {
+						argsOK := len(call.Common().Args) == len(m.Params)
+						for i := 1; argsOK && i < len(m.Params); i++ {
+							if call.Common().Args[i] != ssa.Value(m.Params[i]) {
+								argsOK = false
+							}
+						}
+						resOK := true
+						for i, rv := range ret.Results {
+							if rv != ssa.Value(call) && resultValue(call, i) != rv {
+								resOK = false
+							}
+						}
+						if argsOK && resOK {
+							ok, detail = true, ""
+						}
+					}
+				}
+			}
+			r.add("DELEGATE", shortName(m), "shadow", "a bytes.Buffer method redeclared on the transport is a plain delegation to the buffer", P.pos(m.Pos()), ok, detail)
+		}
+	}
 	// REMAINING
 	if fn := P.Method(rel, "defaultTransport", "RemainingBytes"); r.require("defaultTransport.RemainingBytes", fn != nil) {
 		// the method may hand its wrapped value to a package function that does the work
@@ -747,8 +801,8 @@ func checkC18(P *Program, r *Result, tier string) {
 					continue
 				}
 				// innermost: not guarded by a later assertion
-				c := staticCallNamed(stripIface(ret.Results[0]), ctor)
-				if c == nil {
+				tA, mA, built := excBuilt(ret.Results[0], tname, ctor)
+				if !built || mA == nil {
 					if found {
 						continue
 					}
@@ -757,8 +811,8 @@ func checkC18(P *Program, r *Result, tier string) {
 					continue
 				}
 				found = true
-				a, b, isCat := strConcat(c.Common().Args[1])
-				good = typeIDOf(c.Common().Args[0], val) && isCat && a == prepend && errorTextOf(b, errp, val)
+				a, b, isCat := strConcat(mA)
+				good = typeIDOf(tA, val) && isCat && a == prepend && errorTextOf(b, errp, val)
 				if !good {
 					detail = "arguments must be (asserted.TypeID(), prepend + asserted.Error())"
 				} else {
@@ -795,9 +849,9 @@ func checkC18(P *Program, r *Result, tier string) {
 			good := false
 			for _, ret := range returnsOf(fn) {
 				if okv != nil && guardedBy(ret, okv, true) {
-					if c := staticCallNamed(stripIface(ret.Results[0]), "NewApplicationException"); c != nil {
-						a, b, isCat := strConcat(c.Common().Args[1])
-						good = typeIDOf(c.Common().Args[0], val) && isCat && a == prepend && errorTextOf(b, errp, val)
+					if tA, mA, built := excBuilt(ret.Results[0], "ApplicationException", "NewApplicationException"); built && mA != nil {
+						a, b, isCat := strConcat(mA)
+						good = typeIDOf(tA, val) && isCat && a == prepend && errorTextOf(b, errp, val)
 					}
 				}
 			}
@@ -835,6 +889,9 @@ func checkC18(P *Program, r *Result, tier string) {
 			}
 			for _, sv := range srcs {
 				c := asCall(sv)
+				if al, isAl := sv.(*ssa.Alloc); isAl && strings.HasSuffix(deref(al.Type()).String(), "Exception") {
+					continue // a composite literal of one of the exception kinds (its fields are checked by the branch rules)
+				}
 				if c == nil || c.Common().StaticCallee() == nil || !strings.HasPrefix(c.Common().StaticCallee().Name(), "New") {
 					stray = "the return at " + P.pos(instrPos(ret)) + " hands back something that is not built by one of the branches (e.g. the argument itself, without the prefix)"
 				}
@@ -875,6 +932,41 @@ func init() {
 	register("C18", "other", checkC18)
 	register("C19", "other", checkC19)
 	register("C20", "proof", checkC20)
+}
+
+// excBuilt: v is a freshly built exception of the given kind — a call of its constructor or a composite
+// literal / new object whose type-id (int32) and message (string) fields are stored before use. It returns
+// the two values (nil message = the empty string of the zero value).
+func excBuilt(v ssa.Value, kind, ctor string) (tArg, mArg ssa.Value, ok bool) {
+	v = stripIface(v)
+	if c := staticCallNamed(v, ctor); c != nil && len(c.Common().Args) >= 2 {
+		return c.Common().Args[0], c.Common().Args[1], true
+	}
+	al, isAl := v.(*ssa.Alloc)
+	if !isAl || !typeIsPtrTo(al.Type(), kind) || al.Referrers() == nil {
+		return nil, nil, false
+	}
+	for _, rf := range *al.Referrers() {
+		fa, isFA := rf.(*ssa.FieldAddr)
+		if !isFA || fa.Referrers() == nil {
+			continue
+		}
+		for _, r2 := range *fa.Referrers() {
+			st, isSt := r2.(*ssa.Store)
+			if !isSt || st.Addr != ssa.Value(fa) {
+				continue
+			}
+			if b, isB := st.Val.Type().Underlying().(*types.Basic); isB {
+				switch b.Kind() {
+				case types.Int32:
+					tArg = st.Val
+				case types.String:
+					mArg = st.Val
+				}
+			}
+		}
+	}
+	return tArg, mArg, tArg != nil
 }
 
 // wrapHelperRule: NewProtocolExceptionWithErr returns a *ProtocolException
